@@ -33,6 +33,7 @@ def stopping_plan(prop, ctx, with_t3=False, with_x=True):
     P.append(sweep.family_shards(prop, "U-BIG", j))
     P.append(sweep.family_shards(prop, "U-MF", j))
     P.append(sweep.family_shards(prop, "U-ULP", 1000))
+    P.append(sweep.family_shards(prop, "U-N", j))
     if not ctx.thorough:
         P.append(sweep.family_shards(prop, "U-F", j, max_deg=4, focus_reward=1, stride=7, offset=ctx.seed))
     if with_t3:
